@@ -243,6 +243,45 @@ def run(ctx: Ctx):
         mo_ = vMonth(f"{mn}L" if leap else rnd.choice([mn, str(mn)]))
         mb = vMonth.from_ical(mo_.to_ical().decode())
         rec("month", [mn, int(leap)], mo_.to_ical(), [int(mb), int(mb.leap)])
+    # equivalent spellings of UTC, and subclasses of the value kinds: the text is the same as for the plain value
+    import dateutil.tz as _dtz
+    import pytz as _pytz
+    from datetime import timezone as _tz
+
+    class _D(date):
+        pass
+
+    class _DT(datetime):
+        pass
+
+    class _TD(timedelta):
+        pass
+    utcs = [("timezone.utc", _tz.utc), ("timezone(0,'GMT')", _tz(timedelta(0), "GMT")), ("tzoffset(None,0)", _dtz.tzoffset(None, 0)),
+            ("tzoffset('UTC',0)", _dtz.tzoffset("UTC", 0)), ("tz.UTC", _dtz.UTC), ("pytz.utc", _pytz.utc), ("ZoneInfo UTC", UTC),
+            ("tzutc()", _dtz.tzutc())]
+    for name, z in utcs:
+        dtv = [2024, 7, 1, 12, 30, 5, 1]
+        d = datetime(*dtv[:6], tzinfo=z)
+        for path, enc_fn in (("vDatetime", lambda x: vDatetime(x).to_ical()), ("vDDDTypes", lambda x: vDDDTypes(x).to_ical()),
+                             ("vPeriod", lambda x: vPeriod((x, timedelta(hours=1))).to_ical().split(b"/")[0])):
+            try:
+                text = enc_fn(d)
+            except Exception as e:   # noqa: BLE001
+                text = ("EXC:" + type(e).__name__).encode()
+            ev.append({"k": "enc", "type": "date-time", "v": dtv, "text": L(text), "back": decode("date-time", S(L(text)))})
+            meta.append({"type": "date-time", "v": dtv, "path": f"{path} with tzinfo {name}"})
+            ctx.case(("utc-spelling", name, path), True)
+    for sub, typ, val in ((_D(2024, 2, 29), "date", [2024, 2, 29]), (_DT(2024, 2, 29, 23, 59, 58), "date-time", [2024, 2, 29, 23, 59, 58, 0]),
+                          (_DT(2024, 2, 29, 23, 59, 58, tzinfo=UTC), "date-time", [2024, 2, 29, 23, 59, 58, 1]), (_TD(days=1, seconds=3661), "duration", [1, 1, 3661]),
+                          (_TD(seconds=-30), "duration", [-1, 0, 30])):
+        for path, enc_fn in (("vDDDTypes", lambda x: vDDDTypes(x).to_ical()), ("typed", lambda x: {"date": vDate, "date-time": vDatetime, "duration": vDuration}[typ](x).to_ical())):
+            try:
+                text = enc_fn(sub)
+            except Exception as e:   # noqa: BLE001
+                text = ("EXC:" + type(e).__name__).encode()
+            ev.append({"k": "enc", "type": typ, "v": val, "text": L(text), "back": decode(typ, S(L(text)))})
+            meta.append({"type": typ, "v": val, "path": f"{path} with a {type(sub).__mro__[1].__name__} subclass"})
+            ctx.case(("subclass", typ, path, repr(val)), True)
     ctx.sample({"trace_event": ev[-1]})
     for idx, clause, known in ctx.validate_trace("Trace_ValueCodecs", ev, cfg_text(spec="Spec"), chunk=10000, timeout=3000):
         if clause.startswith("M:"):
